@@ -134,11 +134,17 @@ func ruleR12(c *Ctx) {
 					}
 				}
 			}
-			isPushHelper := u.Decl != nil && u.Lit == nil && u.Decl.Recv != nil && len(u.Body.List) == 1
+			isPushHelper := (u.Decl != nil && u.Lit == nil && u.Decl.Recv != nil && len(u.Body.List) == 1) || c.isPushClosure(u)
 			switch x := n.(type) {
 			case *ast.ExprStmt:
 				if _, elem, ok := c.m.pushCall(x); ok && !isPushHelper {
 					checkSeed(elem, x)
+				}
+				// push(X, depth) through a local closure that appends to the stack
+				if call, ok := x.X.(*ast.CallExpr); ok && len(call.Args) >= 1 {
+					if v := identVar(info, call.Fun); v != nil && c.isPushClosure(c.m.LitOfVar[v]) {
+						checkSeed(call.Args[0], x)
+					}
 				}
 			case *ast.AssignStmt:
 				// q := []T{X}
@@ -461,3 +467,31 @@ func (c *Ctx) constLoop(f *ast.ForStmt) (v *types.Var, lo, hi int64, ok bool) {
 }
 
 var _ = strings.TrimSpace
+
+// isPushClosure: a function literal bound to a local variable whose whole body appends (an entry
+// built from) its reference parameter to a slice of the enclosing function.
+func (c *Ctx) isPushClosure(u *FuncUnit) bool {
+	if u == nil || u.Lit == nil || u.Body == nil || len(u.Body.List) != 1 || u.Type.Params == nil {
+		return false
+	}
+	info := c.m.Info
+	hasRef := false
+	for _, f := range u.Type.Params.List {
+		if c.isNodeRefType(info.TypeOf(f.Type)) {
+			hasRef = true
+		}
+	}
+	if !hasRef {
+		return false
+	}
+	as, ok := u.Body.List[0].(*ast.AssignStmt)
+	if !ok || len(as.Lhs) != 1 || len(as.Rhs) != 1 {
+		return false
+	}
+	call, ok := ast.Unparen(as.Rhs[0]).(*ast.CallExpr)
+	if !ok || !isBuiltinCall(info, call, "append") || len(call.Args) != 2 {
+		return false
+	}
+	lv := identVar(info, as.Lhs[0])
+	return lv != nil && lv == identVar(info, call.Args[0]) && !(lv.Pos() >= u.Lit.Pos() && lv.Pos() <= u.Lit.End())
+}
